@@ -391,3 +391,10 @@ pub fn c08_uri_vs_uriref_hash_n3() {
 pub fn c08_authority_hash_rep2_n6() {
     authority_vs_rep::<6, 2, HASH>()
 }
+
+// @h prop=C07,C08 tier=quick kind=check timeout=2400 mem=6 bound="uri::Authority <= 4 bytes x representative 'h' (both orders): presence vs emptiness of port and user info (h: / @h / %68 vs h)" encodes="same as c08_authority_vs_rep1_n6"
+#[cfg_attr(kani, kani::proof)]
+#[cfg_attr(kani, kani::unwind(8))]
+pub fn c08_authority_vs_rep0_n4() {
+    authority_vs_rep::<4, 0, EQ>()
+}
